@@ -194,7 +194,7 @@ class DOMParser:
 
             if (
                 style is None
-                or style.index(prop) != 0
+                or style.find(prop) != 0
                 or (rule.context and not context.matches_context(rule.context))
                 or (
                     len(style) > len(prop)
@@ -530,7 +530,7 @@ class ParseContext:
         if get_node_type(dom_) == 3:
             self.add_text_node(dom_)
         elif get_node_type(dom_) == 1:
-            style = ";".join(dom_.get("style", [""]))
+            style = dom_.get("style")
 
             if not style:
                 self.add_element(dom_)
